@@ -89,6 +89,58 @@ Definition frame (prepend : bytes) (data : option bytes) : bytes :=
   let data := repeat c_space len ++ data in
   prepend ++ skipn (length prepend) data.
 
+(** ---- checked string / vector operations: every panic of the Rust operation is explicit ---------- *)
+
+(** [str::is_char_boundary(index)] on the bytes of a [&str]:
+    [index == 0 || (index >= len ? index == len : (bytes[index] as i8) >= -0x40)] *)
+Definition is_char_boundary (s : bytes) (i : nat) : bool :=
+  match i with
+  | O => true
+  | _ => match Nat.compare i (length s) with
+         | Eq => true
+         | Gt => false
+         | Lt => negb (is_cont (nth i s 0))
+         end
+  end.
+
+(** [&s[lo..hi]] where [s : &str] / [String]: panics ("byte index .. is not a char boundary" /
+    "out of bounds") unless [lo <= hi] and both are char boundaries of [s]. *)
+Definition str_slice_chk (lo hi : nat) (s : bytes) : outcome bytes :=
+  if (Nat.leb lo hi && is_char_boundary s lo && is_char_boundary s hi)%bool then Ok (slice lo hi s) else Panic.
+
+(** length of the UTF-8 sequence that starts with byte [b0] of a valid [&str] *)
+Definition char_width (b0 : N) : nat :=
+  if b0 <? 128 then 1%nat else if b0 <? 224 then 2%nat else if b0 <? 240 then 3%nat else 4%nat.
+
+(** [String::remove(idx)]:
+    [let ch = self[idx..].chars().next().expect("cannot remove a char from the end of a string");]
+    then the bytes of [ch] are cut out. *)
+Definition str_remove_chk (idx : nat) (s : bytes) : outcome bytes :=
+  match str_slice_chk idx (length s) s with
+  | Ok (b0 :: _) => Ok (firstn idx s ++ skipn (idx + char_width b0) s)
+  | Ok [] => Panic
+  | Err e => Err e
+  | Panic => Panic
+  end.
+
+(** NOT in the code: what cutting a logged request at a byte count ([&data[..data.len().min(max)]])
+    would be. It is here to state (Properties/C19.v, [log_truncation_refuted]) why the handler
+    must not do this: the request is a [&str] and [max] need not be a char boundary. *)
+Definition log_truncate_chk (max : nat) (data : bytes) : outcome bytes :=
+  str_slice_chk 0 (Nat.min (length data) max) data.
+
+(** [frame] with its two partial operations explicit: the range check of
+    [data[..prepend.len()]] and the length check of [copy_from_slice]. *)
+Definition frame_chk (prepend : bytes) (data : option bytes) : outcome bytes :=
+  let data := match data with Some d => d | None => [] end in
+  let len := (length prepend + (if is_empty data then 0 else 1))%nat in
+  let data := repeat c_space len ++ data in
+  match slice_chk 0 (length prepend) data with
+  | Ok dst => if Nat.eqb (length dst) (length prepend) then Ok (prepend ++ skipn (length prepend) data) else Panic
+  | Err e => Err e
+  | Panic => Panic
+  end.
+
 Definition msg_binary : bytes := B "error Received binary content. Requests have to be UTF-8.".
 Definition msg_not_found : bytes := B "error 'Command not found.'".
 
@@ -131,6 +183,54 @@ Section Handler.
         | None => ({| hr_data := msg_not_found; hr_close := false |}, s)
         end
     end.
+
+  (** ---- the same closure with every panic explicit ------------------------------------------------
+      A plugin may panic ([Panic]); the handler's own partial operations are [frame_chk]'s.
+      Sites checked for byte-index slicing of a [&str]/[String]: src/ctl.rs has none in [listen]
+      (the "command not found" branch logs the whole request with [{data:?}], no truncation),
+      [with_ping] has [data.remove(0)] ([str_remove_chk], below); signal/src/lib.rs has none
+      ([Vec<u8>] only); utils/src/lib.rs [encode_quoted_str]/[QuotedStrSplitIter] iterate over
+      [chars()] and [push], never index. *)
+  Definition plugin_chk := list str -> S -> outcome (plugin_response * S).
+  Definition plugins_chk := list (str * plugin_chk).
+
+  Fixpoint lookup_chk (name : str) (ps : plugins_chk) : option plugin_chk :=
+    match ps with
+    | [] => None
+    | (k, p) :: r => if beq k name then Some p else lookup_chk name r
+    end.
+
+  Definition lift_plugin (p : plugin) : plugin_chk := fun args s => Ok (p args s).
+  Definition lift_plugins (ps : plugins) : plugins_chk := map (fun kp => (fst kp, lift_plugin (snd kp))) ps.
+
+  Definition handle_chk (ps : plugins_chk) (req : bytes) (s : S) : outcome (handler_response * S) :=
+    match utf8_decode req with
+    | None => Ok ({| hr_data := msg_binary; hr_close := false |}, s)
+    | Some data =>
+        let toks := quoted_str_split data in
+        match lookup_chk (request_name toks) ps with
+        | Some p =>
+            obind (p (request_args toks) s) (fun rs =>
+              let response := fst rs in
+              let (data, prepend) :=
+                match pr_kind response with
+                | KError data => (data, B "error")
+                | KOk data => (data, B "ok")
+                end in
+              obind (frame_chk prepend data) (fun d =>
+                Ok ({| hr_data := d; hr_close := pr_close response |}, snd rs)))
+        | None => Ok ({| hr_data := msg_not_found; hr_close := false |}, s)
+        end
+    end.
+
+  (** [with_ping] at byte level with [String::remove(0)] explicit *)
+  Definition ping_fold_bytes (args : list str) : bytes :=
+    fold_left (fun acc arg => acc ++ [c_space] ++ utf8_encode (encode_quoted_str arg)) args [].
+  Definition ping_data_chk (args : list str) : outcome bytes :=
+    let data := ping_fold_bytes args in
+    if is_empty data then Ok data else str_remove_chk 0 data.
+  Definition ping_plugin_chk : plugin_chk := fun args s =>
+    obind (ping_data_chk args) (fun d => Ok (pr_ok d, s)).
 
   (** The accept loop: while listening every connection is read to its end, handled and answered;
       [close] makes the loop [break 'outer], after which nobody accepts. *)
@@ -225,9 +325,115 @@ Arguments handle {S}.
 Arguments serve {S}.
 Arguments run {S}.
 Arguments ping_plugin {S}.
+Arguments lookup_chk {S}.
+Arguments lift_plugin {S}.
+Arguments lift_plugins {S}.
+Arguments handle_chk {S}.
+Arguments ping_plugin_chk {S}.
 Arguments shutdown_plugin {S}.
 Arguments clear_plugin {S}.
 Arguments request_name toks : simpl never.
+
+
+(** ---- the listener as a labelled transition system with any number of open connections ---------------
+    [start_at]: the accept loop only accepts and spawns; every accepted connection is served by
+    its own task ([read_to_end], handler, [write_all], drop).  A connection's progress:
+    accepted and reading ([POpen], the bytes received so far) -> the client has shut down its
+    write side ([PComplete], the request) -> the task has written its reply and dropped the
+    connection ([PReplied]; the empty reply when the task panicked).  [PRefused]: connect failed,
+    nobody listens.  What a handler can wait for (the pre-shutdown phase for [wait], anything a
+    user plugin awaits) is [blocked]; what happens outside the socket (a shutdown initiated
+    elsewhere sends [close] to the accept loop, ...) is [env_step]: new state and whether the
+    listener is closed.  Every event concerns one connection (or the environment) and reads and
+    writes only that connection's entry. *)
+Inductive conn_phase :=
+| PRefused
+| POpen (buf : bytes)
+| PComplete (req : bytes)
+| PReplied (d : bytes).
+
+Inductive event :=
+| EConnect (k : N)
+| ESend (k : N) (b : bytes)
+| EFin (k : N)
+| EHandle (k : N)
+| EEnv (e : N).
+
+Definition event_conn (ev : event) : option N :=
+  match ev with
+  | EConnect k | ESend k _ | EFin k | EHandle k => Some k
+  | EEnv _ => None
+  end.
+
+Definition conns := list (N * conn_phase).
+Fixpoint conn_get (k : N) (cs : conns) : option conn_phase :=
+  match cs with
+  | [] => None
+  | (j, p) :: r => if j =? k then Some p else conn_get k r
+  end.
+Fixpoint conn_set (k : N) (v : conn_phase) (cs : conns) : conns :=
+  match cs with
+  | [] => [(k, v)]
+  | (j, p) :: r => if j =? k then (j, v) :: r else (j, p) :: conn_set k v r
+  end.
+
+Section Lts.
+  Variable S : Type.
+  Variable ps : plugins_chk S.
+  Variable blocked : bytes -> S -> bool.
+  Variable env_step : N -> S -> S * bool.
+
+  Record lts_state := { l_listener : listener; l_env : S; l_conns : conns }.
+  Definition lts_init (s : S) : lts_state := {| l_listener := Listening; l_env := s; l_conns := [] |}.
+
+  Definition with_conn (st : lts_state) (k : N) (v : conn_phase) : lts_state :=
+    {| l_listener := l_listener st; l_env := l_env st; l_conns := conn_set k v (l_conns st) |}.
+
+  Definition lstep (st : lts_state) (ev : event) : lts_state :=
+    match ev with
+    | EConnect k =>
+        match conn_get k (l_conns st) with
+        | Some _ => st
+        | None => with_conn st k (match l_listener st with Listening => POpen [] | Closed => PRefused end)
+        end
+    | ESend k b =>
+        match conn_get k (l_conns st) with
+        | Some (POpen buf) => with_conn st k (POpen (buf ++ b))
+        | _ => st
+        end
+    | EFin k =>
+        match conn_get k (l_conns st) with
+        | Some (POpen buf) => with_conn st k (PComplete buf)
+        | _ => st
+        end
+    | EHandle k =>
+        match conn_get k (l_conns st) with
+        | Some (PComplete req) =>
+            if blocked req (l_env st) then st
+            else match handle_chk ps req (l_env st) with
+                 | Ok (hr, s') =>
+                     {| l_listener := if hr_close hr then Closed else l_listener st;
+                        l_env := s';
+                        l_conns := conn_set k (PReplied (hr_data hr)) (l_conns st) |}
+                 | _ => with_conn st k (PReplied [])    (* the task died: dropped without data *)
+                 end
+        | _ => st
+        end
+    | EEnv e =>
+        let (s', close) := env_step e (l_env st) in
+        {| l_listener := if close then Closed else l_listener st; l_env := s'; l_conns := l_conns st |}
+    end.
+
+  Definition lrun (st : lts_state) (evs : list event) : lts_state := fold_left lstep evs st.
+End Lts.
+
+Arguments l_listener {S}.
+Arguments l_env {S}.
+Arguments l_conns {S}.
+Arguments lts_init {S}.
+Arguments with_conn {S}.
+Arguments lstep {S}.
+Arguments lrun {S}.
 
 (** kvarnctl's reading of a reply ([request] in ctl/src/main.rs): the first token decides between
     success and error, the remaining tokens are printed joined by one space. *)
@@ -238,8 +444,8 @@ Definition client_reply_tokens (reply : bytes) : option (list str) :=
 
 (** State of the harness plugins: a counter (for the history-dependent plugin [t-count]) and
     whether [Manager::shutdown] ran. *)
-Record fx_state := { fx_count : N; fx_shutdown : bool }.
-Definition fx_init : fx_state := {| fx_count := 0; fx_shutdown := false |}.
+Record fx_state := { fx_count : N; fx_shutdown : bool; fx_gate : bool }.
+Definition fx_init : fx_state := {| fx_count := 0; fx_shutdown := false; fx_gate := false |}.
 
 Definition unit_sep : N := 31.
 (** name and arguments as the plugin received them, each followed by U+001F *)
@@ -260,15 +466,121 @@ Definition fx_plugins : plugins fx_state :=
     (B "t-close", fun _ s => (pr_closing (pr_ok (B "closing")), s));
     (B "t-fail-close", fun _ s => (pr_closing pr_error_empty, s));
     (B "t-bin", fun _ s => (pr_ok [255; 0; 32; 254], s));
-    (B "t-count", fun _ s => (pr_ok (dec (fx_count s)), {| fx_count := fx_count s + 1; fx_shutdown := fx_shutdown s |}));
+    (B "t-count", fun _ s => (pr_ok (dec (fx_count s)), {| fx_count := fx_count s + 1; fx_shutdown := fx_shutdown s; fx_gate := fx_gate s |}));
     ([], fun args s => (pr_ok (fx_args_data [] args), s));
     (* overridden by the harness so that no test can re-execute the binary or block *)
     (B "reload", fun _ s => (pr_ok_empty, s));
     (B "wait", fun _ s => (pr_ok_empty, s));
     (* the defaults of [Plugins::new] *)
-    (B "shutdown", shutdown_plugin (fun _ s => {| fx_count := fx_count s; fx_shutdown := true |}));
+    (B "shutdown", shutdown_plugin (fun _ s => {| fx_count := fx_count s; fx_shutdown := true; fx_gate := fx_gate s |}));
     (B "ping", ping_plugin);
     (B "clear", clear_plugin fx_uri_ok) ].
+
+
+(** ---- the fixture of the concurrent sessions (ctl.conc) ---------------------------------------------------
+    The harness's second server keeps kvarn's own [wait] (answers [ok] once the instance shuts
+    down, [error] when given arguments) and adds [t-slow], which answers only after the harness
+    opened its gate. *)
+Definition fx_plugins_chk : plugins_chk fx_state :=
+  [ (B "t-slow", fun args s => Ok (pr_ok (fx_args_data (B "t-slow") args), s));
+    (B "wait", fun args s => Ok (match args with
+                                 | [] => pr_ok_empty
+                                 | _ :: _ => pr_error (B "no arguments were expected")
+                                 end, s));
+    (B "ping", ping_plugin_chk) ] ++ lift_plugins fx_plugins.
+
+Definition fx_blocked (req : bytes) (s : fx_state) : bool :=
+  match utf8_decode req with
+  | None => false
+  | Some line =>
+      let toks := quoted_str_split line in
+      if beq (B "wait") (request_name toks) then match request_args toks with [] => negb (fx_shutdown s) | _ :: _ => false end
+      else if beq (B "t-slow") (request_name toks) then negb (fx_gate s)
+      else false
+  end.
+
+(** environment event 0: [Manager::shutdown] called from outside the socket (the ctl socket gets
+    [close]); event 1: the harness opens [t-slow]'s gate. *)
+Definition fx_env_step (e : N) (s : fx_state) : fx_state * bool :=
+  if e =? 0 then ({| fx_count := fx_count s; fx_shutdown := true; fx_gate := fx_gate s |}, true)
+  else ({| fx_count := fx_count s; fx_shutdown := fx_shutdown s; fx_gate := true |}, false).
+
+(** One step of a session script. *)
+Inductive cop :=
+| OOpen (k : N)                 (* connect *)
+| OWrite (k : N) (b : bytes)    (* write, no shutdown *)
+| OFin (k : N)                  (* shut down the write side *)
+| OAwait (k : N)                (* read the reply to its end (bounded wait) *)
+| OShutdown                     (* Manager::shutdown() *)
+| ORelease                      (* open t-slow's gate *)
+| ODrop (k : N)                 (* the client drops the connection without reading *)
+| OReq (k : N) (b : bytes)      (* connect, write, shut down, read: one whole exchange *)
+| OSend (k : N) (b : bytes)     (* connect, write, shut down *)
+| OPeek (k : N).                (* is there a reply yet? *)
+
+Definition d_cop (x : xval) : option cop :=
+  match x with
+  | XL [XN 0; XN k] => Some (OOpen k)
+  | XL [XN 1; XN k; XB b] => Some (OWrite k b)
+  | XL [XN 2; XN k] => Some (OFin k)
+  | XL [XN 3; XN k] => Some (OAwait k)
+  | XL [XN 4; XN _] => Some OShutdown
+  | XL [XN 5; XN _] => Some ORelease
+  | XL [XN 6; XN k] => Some (ODrop k)
+  | XL [XN 7; XN k; XB b] => Some (OReq k b)
+  | XL [XN 8; XN k; XB b] => Some (OSend k b)
+  | XL [XN 9; XN k] => Some (OPeek k)
+  | _ => None
+  end.
+
+Definition cop_events (o : cop) : list event :=
+  match o with
+  | OOpen k => [EConnect k]
+  | OWrite k b => [ESend k b]
+  | OFin k | ODrop k => [EFin k]
+  | OShutdown => [EEnv 0]
+  | ORelease => [EEnv 1]
+  | OReq k b | OSend k b => [EConnect k; ESend k b; EFin k]
+  | OAwait _ | OPeek _ => []
+  end.
+
+Definition fx_lstep := lstep fx_plugins_chk fx_blocked fx_env_step.
+
+(** The schedule the model commits to: a handler runs as soon as its request is complete and it
+    is not blocked (two passes: a closing [shutdown] later in the list unblocks a [wait] earlier
+    in it).  [socket_never_wedged] is about all schedules. *)
+Definition is_complete (c : N * conn_phase) : bool :=
+  match snd c with PComplete _ => true | _ => false end.
+Definition handle_ready (st : lts_state fx_state) : lts_state fx_state :=
+  fold_left fx_lstep (map (fun c => EHandle (fst c)) (filter is_complete (l_conns st))) st.
+
+(** what the client sees: reply [(L (N 0) (B data))]; connect refused [(L (N 1))]; nothing
+    within the bounded wait [(L (N 3))]; nothing yet [(L (N 4))]; no such connection [(L (N 5))] *)
+Definition x_phase (pending : N) (p : option conn_phase) : xval :=
+  match p with
+  | Some (PReplied d) => XL [XN 0; XB d]
+  | Some PRefused => XL [XN 1]
+  | Some (POpen _) | Some (PComplete _) => XL [XN pending]
+  | None => XL [XN 5]
+  end.
+
+Definition cop_output (st : lts_state fx_state) (o : cop) : option xval :=
+  match o with
+  | OAwait k | OReq k _ => Some (XL [XN k; x_phase 3 (conn_get k (l_conns st))])
+  | OPeek k => Some (XL [XN k; x_phase 4 (conn_get k (l_conns st))])
+  | _ => None
+  end.
+
+Fixpoint conc_run (st : lts_state fx_state) (ops : list cop) : list xval :=
+  match ops with
+  | [] => []
+  | o :: r =>
+      let st' := handle_ready (handle_ready (fold_left fx_lstep (cop_events o) st)) in
+      match cop_output st' o with
+      | Some x => x :: conc_run st' r
+      | None => conc_run st' r
+      end
+  end.
 
 (** ---- xval interface -------------------------------------------------------------------------------- *)
 Definition x_reply (r : reply) : xval :=
@@ -278,6 +590,13 @@ Definition x_reply (r : reply) : xval :=
 Definition run_session (x : xval) : xval :=
   match d_list d_B x with
   | Some reqs => x_list x_reply (snd (run fx_plugins (Listening, fx_init) reqs))
+  | None => bad_input
+  end.
+
+(** ctl.conc : session script (list of steps) -> the outputs of its Await / Req / Peek steps *)
+Definition run_conc (x : xval) : xval :=
+  match d_list d_cop x with
+  | Some ops => XL (conc_run (lts_init fx_init) ops)
   | None => bad_input
   end.
 
@@ -296,5 +615,6 @@ Definition run_utf8_encode (x : xval) : xval :=
 
 Definition ctl_table : list (bytes * (xval -> xval)) :=
   [ (B "ctl.session", run_session);
+    (B "ctl.conc", run_conc);
     (B "ctl.utf8", run_utf8);
     (B "ctl.utf8enc", run_utf8_encode) ].
